@@ -544,7 +544,9 @@ class Queue(Greenlet):
                 self._check_ready(now)
             finally:
                 self.queued_lock.release()
-            self._wait_ready(now)
+            # The clock is read again: _check_ready may have spent time
+            # waiting for a slot of a bounded pool.
+            self._wait_ready(time.time())
 
 
 # vim:et:fdm=marker:sts=4:sw=4:ts=4
